@@ -53,6 +53,11 @@ Proof. intros t H. unfold file_lines. now rewrite read_text_ok. Qed.
 (** An external program is admitted when it maps admitted texts to admitted texts. *)
 Definition g_ok (g : raw -> raw) : Prop := forall r, text_ok r = true -> text_ok (g r) = true.
 
+(** The program of a program source is admitted when it prints the same at every run, and that is admitted.
+    (A program that prints something different at every run has no single text before it is frozen; for such
+    sources the check demands - on the running code - one text after freezing: Spec [one_text_after_freeze].) *)
+Definition pg_ok (g : nat -> raw -> raw) : Prop := (forall n r, g n r = g 0%nat r) /\ g_ok (g 0%nat).
+
 
 (** ** Predicates over the parts of a node (nested recursion through [list src]) *)
 Definition allP (P : src -> Prop) : list src -> Prop :=
@@ -176,7 +181,7 @@ Fixpoint Inv (x : src) : Prop :=
   match x with
   | SStr s => text_ok s = true
   | SFile r => text_ok r = true
-  | SProg k g st ins => allP Inv ins /\ g_ok g /\ cs_ok (g (concat (map den ins))) st
+  | SProg k g st ins => allP Inv ins /\ pg_ok g /\ cs_ok (g 0%nat (concat (map den ins))) st
   | SLines f dep path isfz u =>
       Inv u /\ lf_ok f /\ (path = None \/ path = Some (concat (f (lines_lf (den u)))))
   | SFilter f st u => Inv u /\ lf_ok f /\ cs_ok (concat (f (lines_lf (den u)))) st
@@ -194,7 +199,7 @@ Proof.
   induction x using src_ind2; cbn [Inv den]; intros HI.
   - exact HI.
   - now rewrite read_text_ok.
-  - destruct HI as [Hi [Hg _]]. pose proof (Hg _ (parts_text_ok _ (allP_impl _ _ _ H Hi))) as G. now rewrite read_text_ok.
+  - destruct HI as [Hi [[_ Hg] _]]. pose proof (Hg _ (parts_text_ok _ (allP_impl _ _ _ H Hi))) as G. now rewrite read_text_ok.
   - destruct HI as [Hu [Hf _]]. apply good_lines_concat_ok, Hf, good_lines_of_text, IHx, Hu.
   - destruct HI as [Hu [Hf _]]. apply good_lines_concat_ok, Hf, good_lines_of_text, IHx, Hu.
   - destruct HI as [Hu [Hg _]]. pose proof (Hg _ (IHx Hu)) as G. now rewrite read_text_ok.
@@ -207,8 +212,9 @@ Proof. intros ps H. apply parts_text_ok. eapply allP_weaken; [apply inv_den_ok |
 Lemma den_run : forall g u, Inv u -> g_ok g -> read_text (g (den u)) = g (den u).
 Proof. intros g u Hu Hg. apply read_text_ok, Hg, inv_den_ok, Hu. Qed.
 
-Lemma den_prog : forall g ins, allP Inv ins -> g_ok g -> read_text (g (concat (map den ins))) = g (concat (map den ins)).
-Proof. intros g ins Hi Hg. apply read_text_ok, Hg, inv_parts_ok, Hi. Qed.
+Lemma den_prog : forall g ins, allP Inv ins -> pg_ok g ->
+  read_text (g 0%nat (concat (map den ins))) = g 0%nat (concat (map den ins)).
+Proof. intros g ins Hi [_ Hg]. apply read_text_ok, Hg, inv_parts_ok, Hi. Qed.
 
 Lemma den_lines_canonical : forall f u, Inv u -> lf_ok f ->
   f (lines_lf (den u)) = lines_lf (concat (f (lines_lf (den u)))).
@@ -240,6 +246,9 @@ Proof. intros t st [_ H]. split; [right; reflexivity | exact H]. Qed.
 
 Lemma cs_ok_freeze : forall t st, cs_ok t st -> cs_ok t (cs_freeze st).
 Proof. intros t st H. unfold cs_freeze. destruct (c_isfz st); exact H. Qed.
+
+Lemma cs_ok_ran : forall t st, cs_ok t st -> cs_ok t (cs_ran st).
+Proof. intros t st H. exact H. Qed.
 
 Lemma cs_ok_cs0 : forall t, cs_ok t cs0.
 Proof. intros. split; left; reflexivity. Qed.
@@ -516,19 +525,18 @@ Proof.
       exists ps'. auto.
 Qed.
 
-Lemma prog_write_of_ok : forall k g st sin t, t = g sin -> text_ok t = true -> cs_ok t st ->
-  exists w st1, prog_write_of k g st (Some sin) = (Some w, st1) /\ text_of w = t /\ cs_ok t st1 /\
-                c_isfz st1 = c_isfz st /\ c_fz st1 = c_fz st.
+Lemma prog_write_of_ok : forall k g st sin t, g (c_runs st) sin = t -> text_ok t = true -> cs_ok t st ->
+  exists w st1, prog_write_of k g st (Some sin) = (Some w, st1) /\ text_of w = t /\ cs_ok t st1.
 Proof.
-  intros k g st sin t -> Ht Hs. unfold prog_write_of. cbn [option_map]. destruct k.
-  - exists [WFd (g sin)], st. split; [reflexivity|]. split; [apply text_of_fd|]. split; [exact Hs|]. split; reflexivity.
-  - exists [WLines (file_lines (g sin))], (cs_set_path st (g sin)). split; [reflexivity|]. split.
+  intros k g st sin t E Ht Hs. unfold prog_write_of. cbn [option_map]. rewrite E. destruct k.
+  - exists [WFd t], (cs_ran st). split; [reflexivity|]. split; [apply text_of_fd | now apply cs_ok_ran].
+  - exists [WLines (file_lines t)], (cs_set_path (cs_ran st) t). split; [reflexivity|]. split.
     + rewrite text_of_lines. unfold file_lines. rewrite concat_lines_lf. now apply read_text_ok.
-    + split; [now apply cs_ok_set_path|]. split; reflexivity.
+    + now apply cs_ok_set_path, cs_ok_ran.
 Qed.
 
-Lemma inv_prog : forall k g st ins st' ins', g_ok g -> allP Inv ins' -> all2P skel_eq ins ins' ->
-  cs_ok (g (concat (map den ins))) st' -> Inv (SProg k g st' ins') /\ skel_eq (SProg k g st ins) (SProg k g st' ins').
+Lemma inv_prog : forall k g st ins st' ins', pg_ok g -> allP Inv ins' -> all2P skel_eq ins ins' ->
+  cs_ok (g 0%nat (concat (map den ins))) st' -> Inv (SProg k g st' ins') /\ skel_eq (SProg k g st ins) (SProg k g st' ins').
 Proof.
   intros k g st ins st' ins' Hg Hi Hsk Hs. split.
   - cbn [Inv]. rewrite (skel_map_den _ _ Hsk). auto.
@@ -587,8 +595,9 @@ Proof.
       unfold file_lines. rewrite concat_lines_lf. split; [reflexivity|]. split; [exact H|]. split; reflexivity.
   - (* SProg *)
     destruct H as [Hi [Hg Hs]]. cbn [s_lines s_file s_write den]. rewrite (den_prog g ins Hi Hg).
-    set (t := g (concat (map den ins))) in *.
-    assert (Ht : text_ok t = true) by (apply Hg, inv_parts_ok, Hi).
+    set (t := g 0%nat (concat (map den ins))) in *.
+    assert (Ht : text_ok t = true) by (apply (proj2 Hg), inv_parts_ok, Hi).
+    assert (Hdet : forall n, g n (concat (map den ins)) = t) by (intros n; apply (proj1 Hg)).
     assert (HSI : allP (fun p => Inv p -> file_spec b p /\ write_spec b p) ins).
     { eapply allP_weaken; [|exact IHins]. unfold file_spec, write_spec. intros p Hp Ip. apply (Hp Ip). }
     destruct (stdin_ok b ins HSI Hi) as [ins' [Est [Ii' Si']]].
@@ -618,7 +627,7 @@ Proof.
         - destruct (HV z (frozen_known t st z Hs Hz)) as [v [Vv Qv]]. rewrite Vv. exists v, (SProg k g st ins).
           split; [reflexivity|]. split; [exact Qv|]. apply inv_prog; auto using all2P_skel_refl.
         - pose proof Hs as [[Hp|Hp] _]; rewrite Hp.
-          + rewrite Est. destruct (prog_write_of_ok k g st (concat (map den ins)) t eq_refl Ht Hs) as [w [st1 [Ew [Tw [Hs1 _]]]]].
+          + rewrite Est. destruct (prog_write_of_ok k g st (concat (map den ins)) t (Hdet _) Ht Hs) as [w [st1 [Ew [Tw Hs1]]]].
             rewrite Ew. destruct (via_frozen_ok' b t st1 w view Q Ht Hs1 Tw HV) as [v [st' [E2 [Hs' Qv]]]]. rewrite E2.
             exists v, (SProg k g st' ins'). split; [reflexivity|]. split; [exact Qv|]. now apply inv_prog.
           + destruct (via_frozen_ok' b t st _ view Q Ht Hs Ew2 HV) as [v [st' [E2 [Hs' Qv]]]]. rewrite E2.
@@ -629,11 +638,11 @@ Proof.
       * destruct (FZ _ fz_write _ VW) as [w [x' [E [Tw [I S]]]]]. exists w, x'. rewrite E. auto.
     + (* not frozen *)
       pose proof Hs as [[Hp|Hp] _]; rewrite Hp.
-      * rewrite Est. cbn [option_map]. fold t. split; [|split].
-        -- rewrite file_lines_ok by exact Ht. exists (SProg k g (cs_set_path st t) ins'). split; [reflexivity|].
-           apply inv_prog; auto. now apply cs_ok_set_path.
-        -- exists (SProg k g (cs_set_path st t) ins'). split; [reflexivity|]. apply inv_prog; auto. now apply cs_ok_set_path.
-        -- destruct (prog_write_of_ok k g st (concat (map den ins)) t eq_refl Ht Hs) as [w [st1 [Ew [Tw [Hs1 _]]]]].
+      * rewrite Est. cbn [option_map]. rewrite (Hdet (c_runs st)). split; [|split].
+        -- rewrite file_lines_ok by exact Ht. exists (SProg k g (cs_set_path (cs_ran st) t) ins'). split; [reflexivity|].
+           apply inv_prog; auto. now apply cs_ok_set_path, cs_ok_ran.
+        -- exists (SProg k g (cs_set_path (cs_ran st) t) ins'). split; [reflexivity|]. apply inv_prog; auto. now apply cs_ok_set_path, cs_ok_ran.
+        -- destruct (prog_write_of_ok k g st (concat (map den ins)) t (Hdet _) Ht Hs) as [w [st1 [Ew [Tw Hs1]]]].
            rewrite Ew. exists w, (SProg k g st1 ins'). split; [reflexivity|].
            destruct (inv_prog k g st ins st1 ins' Hg Ii' Si' Hs1) as [I S]. auto.
       * split; [|split].
@@ -814,8 +823,8 @@ Proof. intros b. induction ps as [|p ps IH]; cbn; [exact I|]. split; [apply view
 
 (** any view of a frozen program source / concat *)
 Lemma prog_frozen_ok : forall {A} b k g st ins (view : frozen -> option A) (Q : A -> Prop),
-  allP Inv ins -> g_ok g -> cs_ok (g (concat (map den ins))) st ->
-  (forall z, good_fz (g (concat (map den ins))) z -> exists v, view z = Some v /\ Q v) ->
+  allP Inv ins -> pg_ok g -> cs_ok (g 0%nat (concat (map den ins))) st ->
+  (forall z, good_fz (g 0%nat (concat (map den ins))) z -> exists v, view z = Some v /\ Q v) ->
   exists v x', (match c_fz st with
                 | Some z => (view z, SProg k g st ins)
                 | None =>
@@ -828,8 +837,9 @@ Lemma prog_frozen_ok : forall {A} b k g st ins (view : frozen -> option A) (Q : 
                     end
                 end) = (Some v, x') /\ Q v /\ Inv x' /\ skel_eq (SProg k g st ins) x'.
 Proof.
-  intros A b k g st ins view Q Hi Hg Hs HV. set (t := g (concat (map den ins))) in *.
-  assert (Ht : text_ok t = true) by (apply Hg, inv_parts_ok, Hi).
+  intros A b k g st ins view Q Hi Hg Hs HV. set (t := g 0%nat (concat (map den ins))) in *.
+  assert (Ht : text_ok t = true) by (apply (proj2 Hg), inv_parts_ok, Hi).
+  assert (Hdet : forall n, g n (concat (map den ins)) = t) by (intros n; apply (proj1 Hg)).
   assert (HSI : allP (fun p => Inv p -> file_spec b p /\ write_spec b p) ins).
   { eapply allP_weaken; [|apply (all_specs b ins)]. intros p Hp Ip. apply (Hp Ip). }
   destruct (stdin_ok b ins HSI Hi) as [ins' [Est [Ii' Si']]].
@@ -839,7 +849,7 @@ Proof.
   - destruct (HV z (frozen_known t st z Hs Hz)) as [v [Vv Qv]]. rewrite Vv. exists v, (SProg k g st ins).
     split; [reflexivity|]. split; [exact Qv|]. apply inv_prog; auto using all2P_skel_refl.
   - pose proof Hs as [[Hp|Hp] _]; rewrite Hp.
-    + rewrite Est. destruct (prog_write_of_ok k g st (concat (map den ins)) t eq_refl Ht Hs) as [w [st1 [Ew [Tw [Hs1 _]]]]].
+    + rewrite Est. destruct (prog_write_of_ok k g st (concat (map den ins)) t (Hdet _) Ht Hs) as [w [st1 [Ew [Tw Hs1]]]].
       rewrite Ew. destruct (via_frozen_ok' b t st1 w view Q Ht Hs1 Tw HV) as [v [st' [E2 [Hs' Qv]]]]. rewrite E2.
       exists v, (SProg k g st' ins'). split; [reflexivity|]. split; [exact Qv|]. now apply inv_prog.
     + destruct (via_frozen_ok' b t st _ view Q Ht Hs Ew2 HV) as [v [st' [E2 [Hs' Qv]]]]. rewrite E2.
@@ -886,8 +896,8 @@ Proof.
   - exists (SFile r). cbn [s_str den]. fin.
   - cbn [s_str]. destruct (c_isfz st) eqn:Ef.
     + cbn [Inv] in H. destruct H as [Hi [Hg Hs]]. cbn [den]. rewrite (den_prog g ins Hi Hg).
-      destruct (prog_frozen_ok b k g st ins fz_str (fun v => v = g (concat (map den ins))) Hi Hg Hs) as [v [x' [E [-> [I S]]]]].
-      { intros z G. destruct (good_fz_views _ z (Hg _ (inv_parts_ok _ Hi)) G) as [_ [V _]]. eauto. }
+      destruct (prog_frozen_ok b k g st ins fz_str (fun v => v = g 0%nat (concat (map den ins))) Hi Hg Hs) as [v [x' [E [-> [I S]]]]].
+      { intros z G. destruct (good_fz_views _ z (proj2 Hg _ (inv_parts_ok _ Hi)) G) as [_ [V _]]. eauto. }
       rewrite E. eauto.
     + apply str_via_file_ok; [exact H | now apply read_text_ok].
   - cbn [Inv] in H. destruct H as [Hu [Hf Hp]]. destruct (s_lines_ok b u Hu) as [u' [E [Iu' Su]]].
@@ -950,7 +960,7 @@ Proof.
   - exists true, (SFile r). cbn [s_dep]. fin.
   - destruct H as [Hi [Hg Hs]]. cbn [s_dep]. destruct (c_isfz st) eqn:Ef.
     + destruct (prog_frozen_ok b k g st ins fz_dep (fun _ => True) Hi Hg Hs) as [d [x' [E [_ [I S]]]]].
-      { intros z G. destruct (good_fz_views _ z (Hg _ (inv_parts_ok _ Hi)) G) as [_ [_ [_ [[d V] _]]]]. eauto. }
+      { intros z G. destruct (good_fz_views _ z (proj2 Hg _ (inv_parts_ok _ Hi)) G) as [_ [_ [_ [[d V] _]]]]. eauto. }
       rewrite E. eauto.
     + exists true, (SProg k g st ins). split; [reflexivity|]. apply inv_prog; auto using all2P_skel_refl.
   - destruct H as [Hu [Hf Hp]]. cbn [s_dep]. destruct dep.
@@ -1039,6 +1049,8 @@ Proof.
   - destruct (s_file_ok b x H) as [x' [E [I S]]]. rewrite E. exists (OFile (FText (den x))), x'. cbn. rewrite text_eqb_refl. auto.
   - destruct (s_dep_ok b x H) as [d [x' [E [I S]]]]. rewrite E. exists (ODep d), x'. cbn. auto.
   - destruct (s_freeze_ok x H) as [I S]. exists OFrozen, (s_freeze x). auto.
+  - destruct (s_write_ok b x H) as [evs [x' [E [I [S T]]]]]. rewrite E. cbn [option_map oobs].
+    rewrite file_of_events_text, T. exists (OWritten (FText (den x))), x'. cbn. rewrite text_eqb_refl. auto.
 Qed.
 
 Lemma run_ok : forall b accs x, Inv x ->
@@ -1058,7 +1070,7 @@ Qed.
 Fixpoint lfs_ok (x : src) : Prop :=
   match x with
   | SStr _ | SFile _ => True
-  | SProg _ g _ ins => g_ok g /\ allP lfs_ok ins
+  | SProg _ g _ ins => pg_ok g /\ allP lfs_ok ins
   | SLines f _ _ _ u => lf_ok f /\ lfs_ok u
   | SFilter f _ u => lf_ok f /\ lfs_ok u
   | SRun g _ u => g_ok g /\ lfs_ok u
@@ -1225,6 +1237,9 @@ Proof. apply lf_ok_char_map, char_map_ok_upper. Qed.
 Lemma g_ok_cat : g_ok g_cat.
 Proof. intros r H. exact H. Qed.
 
+Lemma pg_ok_det : forall g, g_ok g -> pg_ok (det g).
+Proof. intros g H. split; [reflexivity | exact H]. Qed.
+
 Lemma g_ok_const : forall out, text_ok out = true -> g_ok (g_const out).
 Proof. intros out H r _. exact H. Qed.
 
@@ -1388,6 +1403,7 @@ Definition ideal (t : text) (a : access) : obs :=
   | AFile => OFile (FText t)
   | ADep => ODep false
   | AFreeze => OFrozen
+  | AWrite => OWritten (FText t)
   end.
 (** the dependency hint is not part of the text *)
 Definition strip_dep (o : obs) : obs := match o with ODep _ => ODep false | _ => o end.
@@ -1401,6 +1417,8 @@ Proof.
   - destruct (s_file_ok b x H) as [x' [E [I S]]]. rewrite E. exists (OFile (FText (den x))), x'. auto.
   - destruct (s_dep_ok b x H) as [d [x' [E [I S]]]]. rewrite E. exists (ODep d), x'. auto.
   - destruct (s_freeze_ok x H) as [I S]. exists OFrozen, (s_freeze x). auto.
+  - destruct (s_write_ok b x H) as [evs [x' [E [I [S T]]]]]. rewrite E. cbn [option_map oobs].
+    rewrite file_of_events_text, T. exists (OWritten (FText (den x))), x'. auto.
 Qed.
 
 Lemma run_exact : forall b accs x, Inv x -> map strip_dep (fst (run b accs x)) = map (ideal (den x)) accs.
